@@ -108,6 +108,7 @@ func report(prop, tier string, seed int64, hs []harnessRef, results []*interp.Ha
 	var coverPaths []string
 	coverOf := map[string]string{}
 	var hangPaths []string
+	var racePaths []string
 	var normalPaths []string
 	perKey := map[string]int{}
 	for _, r := range results {
@@ -125,6 +126,11 @@ func report(prop, tier string, seed int64, hs []harnessRef, results []*interp.Ha
 			} else if v.Kind == "hang" {
 				expect = "hang"
 			}
+			for _, tg := range v.Tags {
+				if tg == "native-replay:race" {
+					expect = "race"
+				}
+			}
 			rf := replayFile{Property: prop, Harness: r.Name, PkgDir: pkgOf[r.Name], Tier: tier, Kind: "violation", Expect: expect, Label: v.Label,
 				Msg: v.Msg, Tags: v.Tags, Model: v.Model, Decisions: v.Decisions, Theory: v.Theory, Solver: v.Solver}
 			p := filepath.Join(repDir, fmt.Sprintf("%s-v%d.json", r.Name, k))
@@ -133,6 +139,8 @@ func report(prop, tier string, seed int64, hs []harnessRef, results []*interp.Ha
 			viols = append(viols, pendingViol{v, p})
 			if v.Kind == "hang" {
 				hangPaths = append(hangPaths, p)
+			} else if expect == "race" {
+				racePaths = append(racePaths, p)
 			} else {
 				normalPaths = append(normalPaths, p)
 			}
@@ -165,6 +173,13 @@ func report(prop, tier string, seed int64, hs []harnessRef, results []*interp.Ha
 			for k, v := range runReplays(files, hangPaths, true) {
 				outcomes[k] = v
 			}
+		}
+		if len(racePaths) > 0 {
+			raceMode = true
+			for k, v := range runReplays(files, racePaths, false) {
+				outcomes[k] = v
+			}
+			raceMode = false
 		}
 	}
 
